@@ -398,7 +398,10 @@ def stress(seed: int, nthreads: int, nsteps: int, flavour: str, corpus: list, re
         for i, r in enumerate(conc):
             c = allc[i] if i < len(allc) else {'k': r.get('k', '?')}
             k = r['k']
-            m = C.mjson(c.get('kw', {}) if k != 'edit' else r.get('opts', {}), c.get('unknown', ()))
+            kw = c.get('kw', {}) if k != 'edit' else r.get('opts', {})
+            if k == 'edit' and not C.classifiable(kw):
+                kw = {}     # per-call options of the shared edit driver outside the documented tables: not judged
+            m = C.mjson(kw, c.get('unknown', ()))
             ev = fill(new_event(t, k, SRC, m, how=c.get('how', '-')), r)
             ev['cmd'] = {kk: (vv if kk != 'kw' else {n: C.vrepr(v) for n, v in vv.items()}) for kk, vv in c.items()}
             if k == 'spawn':
@@ -417,3 +420,124 @@ def stress(seed: int, nthreads: int, nsteps: int, flavour: str, corpus: list, re
     ev['hasPre'], ev['pre'], ev['hasObs'], ev['obs'], ev['eff'] = True, main_obs, True, main_obs, main_obs
     traces.append({'id': base_id + nthreads + 1, 'steps': [ev], 'complete': True, 'script': None, 'nsolo_det': 0})
     return traces
+
+
+# ----------------------------------------------------------------------------------------------------------------------
+# ThreadsSim behaviours: the model's schedule (sub-call steps of three threads) reproduced with real threads that
+# park at yield points inside pfst (`_Modifying.enter/success/fail`, `get_option`)
+
+TEDIT_OPTS = ['pars', 'norm', 'elif_', 'pep8space', 'op_side', 'coerce', 'trivia']
+ROOT_OF = {'r1': (1, 0), 'r2': (2, 0), 'r3': (2, 1), 'r4': (3, 0)}
+NTREES = {1: 1, 2: 2, 3: 1}
+
+
+def concretise_thread_scripts(beh, cz):
+    tnum = {'t1': 1, 't2': 2, 't3': 3}
+    scripts = {}
+    for sc in beh['scripts']:
+        t = tnum[sc['t']]
+        cmds = []
+        for op in sc['ops']:
+            if op['k'] == 'edit':
+                kw, unknown = cz.kwargs(op['m'], call=True)
+                rejected = any(n == 'unk' or v == 'bad' for n, v in op['m'])
+                cmds.append({'k': 'tedit', 'tree': ROOT_OF[op['r']][1], 'node': 0 if op['n'] == 'a' else 1,
+                             'opt': cz.opt[op['o']], 'kw': kw, 'unknown': unknown, 'fault': op['fault'],
+                             'rejected': rejected})
+            elif op['k'] == 'exit':
+                cmds.append({'k': 'exit', 'how': op['how'], 'levels': 1})
+            else:
+                kw, unknown = cz.kwargs(op['m'])
+                cmds.append({'k': op['k'], 'kw': kw, 'unknown': unknown})
+        scripts[t] = cmds
+    return scripts
+
+
+def replay_thread_behaviour(beh: dict, rng: random.Random, trace_id: int, reglog=None, hooks=True) -> dict:
+    cz = Concretiser(rng, pool=TEDIT_OPTS, n=2)
+    scripts = concretise_thread_scripts(beh, cz)
+    tnum = {'t1': 1, 't2': 2, 't3': 3}
+    ctl = Controller(reglog)
+    SRC = 'G-threads'
+    steps = []
+    pc = {t: 0 for t in scripts}
+    inflight = {}
+    nyield = 0
+
+    def event_of(t, c, r):
+        k = 'edit' if c['k'] == 'tedit' else c['k']
+        ev = fill(new_event(t, k, SRC, C.mjson(c.get('kw', {}), c.get('unknown', ())), how=c.get('how', '-')), r)
+        ev['cmd'] = {kk: (vv if kk != 'kw' else {n: C.vrepr(v) for n, v in vv.items()}) for kk, vv in c.items()}
+        return ev
+
+    def advance(t, to_end):
+        """Let thread t run to its next yield point (or, with to_end, to the end of the call)."""
+        nonlocal nyield
+        th, ch = ctl.w[t]
+        n = 1 if to_end else rng.choice((1, 1, 2, 3))
+        while inflight.get(t) is not None and (to_end or n > 0):
+            ch.cmd.put({'k': 'go'})
+            r = ctl.wait(t)
+            if r.get('k') == 'yield':
+                nyield += 1
+                n -= 1
+            else:
+                steps.append(event_of(t, inflight.pop(t), r))
+
+    try:
+        r = ctl.spawn(1, [C.TEDIT_SRC] * NTREES[1])
+        ev = fill(new_event(1, 'spawn', SRC), r)
+        ev['hasPre'] = False
+        steps.append(ev)
+        for st in beh['sched']:
+            t, act = tnum[st['t']], st['act']
+            if act == 'spawn':
+                r = ctl.spawn(t, [C.TEDIT_SRC] * NTREES[t])
+                ev = fill(new_event(t, 'spawn', SRC), r)
+                ev['hasPre'] = False
+                steps.append(ev)
+            elif act in ('set', 'enter', 'exit'):
+                c = scripts[t][pc[t]]
+                pc[t] += 1
+                steps.append(event_of(t, c, ctl.send(t, c)))
+            elif act == 'read':
+                c = dict(scripts[t][pc[t]], step=hooks)
+                pc[t] += 1
+                th, ch = ctl.w[t]
+                ch.cmd.put(c)
+                r = ctl.wait(t)
+                if r.get('k') == 'yield':
+                    nyield += 1
+                    inflight[t] = c
+                    if c['rejected']:
+                        advance(t, True)
+                else:
+                    steps.append(event_of(t, c, r))
+            elif act in ('success', 'fail'):
+                advance(t, True)
+            else:  # enterreg / nest / unnest / body
+                advance(t, False)
+        for t in list(inflight):
+            advance(t, True)
+        # blocks left open by the model's scripts do not exist (every script closes what it opens)
+    finally:
+        for t in list(inflight):
+            try:
+                advance(t, True)
+            except Exception:  # noqa: BLE001
+                pass
+        for t in sorted(ctl.w):
+            try:
+                ctl.die(t)
+            except Exception:  # noqa: BLE001
+                pass
+    # the same scripts alone
+    for t, cmds in scripts.items():
+        th, ch = run_script([dict(c) for c in cmds], 100 + t, [C.TEDIT_SRC] * NTREES[t], None)
+        th.start()
+        th.join(TIMEOUT)
+        solo = ch.replies
+        mine = [e for e in steps if e['t'] == t]
+        for e, s in zip(mine, solo):
+            e['solo'] = dict(solo_of(s), has=True, det=True)
+    return {'id': trace_id, 'steps': steps, 'concrete': cz.opt, 'yields': nyield}
